@@ -28,7 +28,7 @@ from pyvc.api import *
 from pyvc.api import PROTOCOLS
 from pyvc.protocol import PMethod, Protocol, encode_arg, uf_shape_value
 from pyvc.seqs import LRef, SObj
-from pyvc.text import SConcat, SRepeat, SText, TextShape, as_text, text_eq
+from pyvc.text import SConcat, SRepeat, SText, TextShape, _Derived, as_text, text_eq
 from pyvc.values import SOpaque, SOpt, cur, mk_bool
 
 from contracts import C03_layout2 as L2
@@ -123,11 +123,38 @@ class OneChar(TextShape):
         return SText(self.kind, 1, st.fresh_name(hint))
 
 
+class SChoice(_Derived):
+    """`a if c else b` for two texts of one kind, as a derived text (pyvc.text): length, elements and width prefix sums
+    are conditional terms -- no path fork."""
+
+    def __init__(self, c, a, b):
+        super().__init__(a.kind, ite(c, a.length, b.length))
+        self.c, self.a, self.b = c, a, b
+
+    def get(self, i):
+        return ite(self.c, self.a.get(i), self.b.get(i))
+
+    def W(self, k):
+        return ite(self.c, self.a.W(k), self.b.W(k))
+
+    def raw(self, zi):
+        return z3.If(V._zb(self.c), self.a.raw(zi), self.b.raw(zi))
+
+
+def unmasked(s):
+    m = s._mask
+    return m is None or (opt_isnone(m) if isinstance(m, SOpt) else False)
+
+
 def shown(s):
     """What Edit.get_text() shows: caption + edit text, or caption + one mask character per element of the edit text."""
-    if s._mask is None:
+    m = s._mask
+    if m is None:
         return SConcat(s._caption, s._edit_text)
-    return SConcat(s._caption, SRepeat(s._mask, tlen(s._edit_text)))
+    masked = SRepeat(m.val if isinstance(m, SOpt) else m, tlen(s._edit_text))
+    if not isinstance(m, SOpt):
+        return SConcat(s._caption, masked)
+    return SConcat(s._caption, SChoice(opt_isnone(m), s._edit_text, masked))
 
 
 def text_terms(t):
@@ -137,6 +164,8 @@ def text_terms(t):
         return [z3.IntVal(V.atom_code("text:concat")), *text_terms(t.a), *text_terms(t.b)]
     if isinstance(t, SRepeat):
         return [z3.IntVal(V.atom_code("text:repeat")), *text_terms(t.unit), V._z(t.length)]
+    if isinstance(t, SChoice):
+        return [z3.IntVal(V.atom_code("text:choice")), V._zb(t.c), *text_terms(t.a), *text_terms(t.b)]
     return encode_arg(cur(), t)
 
 
@@ -154,13 +183,16 @@ class EditLayoutProtocol(Protocol):
 
     def _value(self, st, recv, vals):
         terms = [recv.e, *text_terms(vals["text"]), V._z(vals["width"]), *encode_arg(st, vals["align"]), *encode_arg(st, vals["wrap"])]
-        r = uf_shape_value(st, "EditLayout.layout", terms, LAYOUT)
-        _seq(r).uf_key = tuple(terms)
+        # one individual per argument list (equal arguments => the same individual => the same list: congruence); the
+        # lines and segments are functions of that individual and their indices
+        ident = z3.Function("EditLayout.layout#id/" + ".".join(str(t.sort())[0] for t in terms), *[t.sort() for t in terms], z3.IntSort())(*terms)
+        r = uf_shape_value(st, "EditLayout.layout", [ident], LAYOUT)
+        _seq(r).uf_key = ident
         if st.capture is None:
             done = st.ghost.setdefault("layouts_known", {})
-            k = tuple(t.get_id() for t in terms)
+            k = ident.get_id()
             if k not in done:
-                done[k] = terms  # (keeps the terms, hence their ids, alive)
+                done[k] = ident  # (keeps the term, hence its id, alive)
                 text = vals["text"]
                 play().add_fact(lambda y, j, r=r, text=text: seg_wf(r, text, y, j))
         return r
@@ -194,10 +226,7 @@ def is_lay(tr, s, maxcol):
     key = getattr(_seq(tr), "uf_key", None)
     if key is None:
         return False
-    want = _seq(Lay(s, maxcol)).uf_key
-    if len(key) != len(want) or any(a.sort() != b.sort() for a, b in zip(key, want)):
-        return False
-    return both(True, *[mk_bool(a == b) for a, b in zip(key, want)])
+    return mk_bool(key == _seq(Lay(s, maxcol)).uf_key)
 
 
 # ------------------------------------------------------------------------------------------------ the state
@@ -219,16 +248,16 @@ PREF = Variant(Const(None), Int, Const("left"), Const("right"))   # Align.LEFT =
 GEO_FIELDS = dict(
     _edit_text=STR, _caption=STR, _edit_pos=Int, highlight=Opt(Tup(Int, Int)),
     pref_col_maxcol=Tup(PREF, Opt(Int)), multiline=Bool, allow_tab=Bool,
-    _mask=Union(Const(None), OneChar("str")), _attrib=ATTRIB, _shift_view_to_cursor=Bool,
+    _mask=Opt(OneChar("str")), _attrib=ATTRIB, _shift_view_to_cursor=Bool,
     _layout=ELAYOUT, _align_mode=MODE, _wrap_mode=MODE, _cache_maxcol=Opt(Int), _cache_translation=LAYOUT,
 )
 
 
 class GeoShape(Obj):
-    """`self` of an Edit (str) in a state satisfying the cache clause of the invariant BY CONSTRUCTION: either nothing is
-    cached (`_cache_maxcol` None or 0, any translation), or a width w != 0 is cached and `_cache_translation` is the
-    list L(self, w) itself.  (Equal lists are indistinguishable to the code under contract: translations are never
-    mutated nor compared by identity.)"""
+    """`self` of an Edit (str) in a state satisfying the cache clause of the invariant BY CONSTRUCTION: the cached
+    translation is the list the layout protocol answers for SOME argument list -- the one for the text shown now at
+    width `_cache_maxcol` when a width is cached (neither None nor 0), an arbitrary one otherwise (lists are functions
+    of the identity of the argument list: EditLayoutProtocol._value)."""
 
     def __init__(self, cls=_edit.Edit):
         super().__init__(cls, GEO_FIELDS)
@@ -236,14 +265,12 @@ class GeoShape(Obj):
     def fresh(self, st, hint):
         o = SObj(self.cls, {k: shp.fresh(st, f"{hint}.{k}") for k, shp in self.fields.items()})
         o.shape = self
-        if st.fork(2) == 0:
-            cm = o.fields["_cache_maxcol"]
-            st.assume(z3.Or(cm.isnone, V._z(cm.val) == 0))
-        else:
-            w = st.fresh_int(f"{hint}._cache_maxcol")
-            st.assume(w.e != 0)
-            o.fields["_cache_maxcol"] = w
-            o.fields["_cache_translation"] = Lay(o, w)
+        cm = o.fields["_cache_maxcol"]
+        is_cached = z3.And(z3.Not(cm.isnone), V._z(cm.val) != 0)
+        ident = z3.If(is_cached, _seq(Lay(o, cm.val)).uf_key, st.fresh_int(f"{hint}.some_layout").e)
+        tr = uf_shape_value(st, "EditLayout.layout", [ident], LAYOUT)
+        _seq(tr).uf_key = ident
+        o.fields["_cache_translation"] = tr
         return o
 
 
@@ -279,6 +306,8 @@ CONTENT = ("_edit_text", "_caption", "_mask", "_attrib", "_layout", "_align_mode
 def same_field(a, b):
     if isinstance(a, SText) or isinstance(b, SText):
         return a is b
+    if isinstance(a, SOpt) and isinstance(a.val, SText):
+        return isinstance(b, SOpt) and a.val is b.val and mk_bool(a.isnone == b.isnone)
     if a is None or b is None:
         return a is None and b is None
     if isinstance(a, SOpaque):
@@ -339,11 +368,11 @@ class get_text:
         cap, et = old._caption, old._edit_text
         yield "as-long-as-caption-plus-edit-text", tlen(t) == tlen(cap) + tlen(et)
         yield "caption-first", text_eq(as_text(t).slice(0, tlen(cap)), cap)
-        if old._mask is None:
+        if bool(unmasked(old)):
             yield "then-the-edit-text", text_eq(as_text(t).slice(tlen(cap), tlen(t)), et)
         else:
             j = V.arbitrary("masked")
-            yield "then-one-mask-character-per-element-of-the-edit-text", implies(both(0 <= j, j < tlen(et)), as_text(t).get(tlen(cap) + j) == old._mask.get(0))
+            yield "then-one-mask-character-per-element-of-the-edit-text", implies(both(0 <= j, j < tlen(et)), as_text(t).get(tlen(cap) + j) == val(old._mask).get(0))
         yield "attributes-of-the-caption", same_field(at, old._attrib)
         yield "nothing-touched", both(editor_same(old, s), flag_same(old, s), opt_eq(s._cache_maxcol, old._cache_maxcol))
 
@@ -600,7 +629,13 @@ def view_of(old, maxcol):
     if not bool(old._shift_view_to_cursor):
         return None
     lay = Lay(old, maxcol)
-    v = Shifted(lay, CellOf.some(shown(old), lay, cursor_index(old), "cursor"), maxcol)
+    # calc_coords is a function of its arguments (it reads nothing else): two look-ups of the same position in the same
+    # layout on one path are ONE record
+    known = cur().ghost.setdefault("cursor_cells", {})
+    key = (_seq(lay).uf_key.get_id(), V._z(cursor_index(old)).get_id())
+    if key not in known:
+        known[key] = (CellOf.some(shown(old), lay, cursor_index(old), "cursor"), lay)
+    v = Shifted(lay, known[key][0], maxcol)
     cur().ghost.setdefault("views", []).append(v)
     return v
 
@@ -997,3 +1032,372 @@ class get_pref_col:
         if not bool(both(neg(opt_isnone(then)), val(then) == a.size[0])):
             _cache_effects(old, s, a.size[0])
             s.fields["_shift_view_to_cursor"] = True
+
+
+# ------------------------------------------------------------------------------------------------ calc_line_pos / calc_pos with their witness
+
+from contracts.C03_layout2 import char_at_col, seg_has_offs, seg_is_run, seg3_end  # noqa: E402
+
+PREFCOL = Union(Int, Const("left"), Const("right"))
+
+
+def _is(pref, word):
+    return isinstance(pref, str) and pref == word
+
+
+class LinePos:
+    """What one call of calc_line_pos(text, line, pref) -> p established, with its witness k (a segment of the line):
+         pref 'left':   found: segment k has an offset, p is that offset, no segment before k has one;
+                        not found: no segment of the line has an offset (and p is None);
+         pref 'right':  found: segment k has an offset, p is the last position of that segment (the character in its last
+                        column if it is a run of the text, else its offset), no segment after k has an offset;
+                        not found: as for 'left';
+         a column:      found: segment k is a run of the text whose cells contain the column, p is the character whose cell
+                        that column is, no run before k contains the column;
+                        not found: no run of the line contains the column (p is then a closest position, or None).
+       The "no segment ..." parts are one clause about EVERY segment of the line, `none_at(j)`."""
+
+    def __init__(self, text, line, pref, p, k, found, known=False):
+        self.text, self.line, self.pref, self.p, self.k, self.found = text, _seq(line), pref, p, k, found
+        if known:
+            st = cur()
+            for _l, f in self.facts():
+                st.assume(f)
+
+    def _in(self, j):
+        return both(0 <= j, j < n_segs(self.line))
+
+    def _contains(self, j):
+        e = seg_at(self.line, j)
+        x = colsum(self.line, j)
+        return both(seg_is_run(e), x <= self.pref, self.pref < x + seg_cols(e))
+
+    def facts(self):
+        line, t, pref, p, k = self.line, self.text, self.pref, self.p, self.k
+        e = seg_at(line, k)
+        o = val(seg3_offs(e))
+        has_p = neg(opt_isnone(p))
+        pv = val(p) if val(p) is not None else 0
+        if _is(pref, "left"):
+            body = both(seg_has_offs(e), pv == o)
+        elif _is(pref, "right"):
+            body = both(seg_has_offs(e), ite(seg_is_run(e), char_at_col(t, pv, o, seg3_end(e), seg_cols(e) - 1), pv == o))
+        else:
+            body = both(self._contains(k), char_at_col(t, pv, o, seg3_end(e), pref - colsum(line, k)))
+        yield "found-the-position-of-its-segment", implies(self.found, both(self._in(k), has_p, body))
+        if isinstance(pref, str):
+            yield "no-position-exactly-when-no-segment-has-an-offset", eq(self.found, has_p)
+
+    def none_at(self, j):
+        if _is(self.pref, "left"):
+            return implies(both(self._in(j), either(neg(self.found), j < self.k)), neg(seg_has_offs(seg_at(self.line, j))))
+        if _is(self.pref, "right"):
+            return implies(both(self._in(j), either(neg(self.found), j > self.k)), neg(seg_has_offs(seg_at(self.line, j))))
+        return implies(both(self._in(j), either(neg(self.found), j < self.k)), neg(self._contains(j)))
+
+    def clauses(self):
+        yield from self.facts()
+        yield "no-other-segment-qualifies-before-it-or-none-at-all", self.none_at(arb()[1])
+
+
+def _seg_ok1(line, text, j):
+    e = seg_at(line, j)
+    return implies(both(0 <= j, j < n_segs(line)), both(L2.seg_valid(e, text), implies(j >= 1, seg_cols(e) >= 0)))
+
+
+def _clp_requires(a):
+    if cur().ghost.get("verifying_the_body_of") == "calc_line_pos":
+        return L2.calc_line_pos.requires(a)
+    play()
+    return _seg_ok1(_seq(a.line_layout), a.text, arb()[1])
+
+
+def _clpw_ens(a, result):
+    st = cur()
+    loc = st.ghost.get("exit_locals", {})
+    line, pref, t = _seq(a.line_layout), a.pref_col, a.text
+    k = st.ghost.get("loop_index")
+    j = arb()[1]
+    if _is(pref, "left"):
+        found = "s" in loc and not bool(opt_isnone(result))
+        yield from LinePos(t, line, pref, result, k if found else -1, found).clauses()
+        return
+    if _is(pref, "right"):
+        # the function kept the LAST segment with an offset it met; which one that is, is known through the loop
+        # invariant only ("there is a k ..."): the clauses are stated for SOME witness k
+        found = neg(opt_isnone(result))
+        n = n_segs(line)
+
+        def ok(k2):
+            r = LinePos(t, line, pref, result, k2, True)
+            return both(*[f for _l, f in r.facts()], r.none_at(j))
+
+        yield "right/some-segment-is-the-witness-or-no-segment-has-an-offset", ite(found, L2.exists(0, n, ok), LinePos(t, line, pref, result, -1, False).none_at(j))
+        return
+    if "s" in loc and k is not None:
+        s_, csc = loc["s"], loc["current_sc"]
+        found = both(neg(opt_isnone(s_.offs)), neg(opt_isnone(s_.end)), csc <= pref, pref < csc + s_.sc)
+        # instances of lemma `columns-prefix-sum-monotone` (contracts/C03_layout2.py) between where the loop stopped and
+        # the arbitrary segment, as in C03's own proof of calc_line_pos
+        wf = L2.line3_ok(line, t)
+        for lo, hi in ((imax(k, 1), j), (imax(k + 1, 1), j), (imax(j, 1), k), (imax(j + 1, 1), k)):
+            L2.cols_mono(line, wf, lo, hi)
+    else:
+        found, k = False, -1
+    yield from LinePos(t, line, pref, result, k, found).clauses()
+
+
+def _clpw_callee(a, result):
+    st = cur()
+    rec = LinePos(a.text, a.line_layout, a.pref_col, result, st.fresh_int("pos_seg"), st.fresh_bool("pos_found"), known=True)
+    st.ghost.setdefault("line_pos", []).append(rec)
+    play().add_fact(lambda y, j, rec=rec: rec.none_at(j))
+    return ()
+
+
+@contract(TL + "calc_line_pos", property=("C10", "C09"), alias="position-with-witness", replayable=False)
+class calc_line_pos_w:
+    contract_overrides = L2.calc_line_pos.contract_overrides
+    params = dict(text=L2.TEXT, line_layout=LINE3, pref_col=PREFCOL)
+    setup = staticmethod(_verifying("calc_line_pos"))
+    result = Opt(Int)
+    raises = ()
+    loops = L2.calc_line_pos.loops
+    qf_branching = True
+    requires = staticmethod(_clp_requires)
+    ensures = staticmethod(_clpw_ens)
+    ensures_callee = staticmethod(_clpw_callee)
+
+
+class RowPos:
+    """What one call of calc_pos(text, layout, pref, row) -> p established (row a line of the layout): `line` is the record
+    of calc_line_pos on that line (LinePos, its answer `line.p` an optional position); when the line has a position at
+    all, p is that position (else calc_pos looks at the neighbouring lines: nothing is said then)."""
+
+    def __init__(self, layout, row, p, line, known=False):
+        self.layout, self.row, self.p, self.line = layout, row, p, line
+        if known:
+            for _l, f in self.facts():
+                cur().assume(f)
+            play().add_fact(self.none_at)
+            play().add_point(row, line.k)
+
+    def facts(self):
+        yield "position-of-the-line-itself-when-it-has-one", implies(neg(opt_isnone(self.line.p)), self.p == (val(self.line.p) if val(self.line.p) is not None else 0))
+
+    def none_at(self, y2, j2):
+        return self.line.none_at(j2)   # (a clause about the segments j2 of ONE line, whatever y2)
+
+
+def _cpos_requires(a):
+    if cur().ghost.get("verifying_the_body_of") == "calc_pos":
+        return L2.calc_pos.requires(a)
+    play()
+    y, j = arb()
+    return implies(both(0 <= y, y < nlines(a.layout)), _seg_ok1(row_of(a.layout, y), a.text, j))
+
+
+def _cpos_inv(v):
+    """the two work lists hold line numbers of the layout: the lines above `row` nearest first, the lines below likewise"""
+    n = nlines(v.layout)
+    ab, be = v.rows_above, v.rows_below
+    la, lb = Q.seq_len(ab), Q.seq_len(be)
+    yield "lists-shrink-in-step", both(la >= 0, lb >= 0, la <= v.row, v.row - la == (n - 1 - v.row) - lb)
+    yield "rows-above-still-to-try-nearest-first", forall(0, la, lambda q: Q.seq_get(ab, q) == la - 1 - q, check_empty=False)
+    yield "rows-below-still-to-try-nearest-first", forall(0, lb, lambda q: Q.seq_get(be, q) == n - lb + q, check_empty=False)
+
+
+def _cposw_ens(a, result):
+    recs = cur().ghost.get("line_pos", [])
+    yield "the-line-itself-is-asked-first", len(recs) >= 1
+    if not recs:
+        return
+    r0 = recs[0]
+    line = LinePos(a.text, row_of(a.layout, a.row), a.pref_col, r0.p, r0.k, r0.found)
+    for label, f in line.clauses():
+        yield "line/" + label, f
+    yield from RowPos(a.layout, a.row, result, line).facts()
+
+
+def _cposw_callee(a, result):
+    st = cur()
+    line = LinePos(a.text, row_of(a.layout, a.row), a.pref_col, Opt(Int).fresh(st, "line_pos"), st.fresh_int("pos_seg"), st.fresh_bool("pos_found"), known=True)
+    st.ghost.setdefault("row_pos", []).append(RowPos(a.layout, a.row, result, line, known=True))
+    return ()
+
+
+@contract(TL + "calc_pos", property=("C10", "C09"), alias="position-with-witness", replayable=False)
+class calc_pos_w:
+    contract_overrides = {TL + "calc_line_pos": calc_line_pos_w}
+    params = dict(text=L2.TEXT, layout=LAYOUT, pref_col=PREFCOL, row=Int)
+    setup = staticmethod(_verifying("calc_pos"))
+    result = Int
+    raises = (ValueError,)
+    raises_iff = {ValueError: lambda a: either(a.row < 0, a.row >= nlines(a.layout))}
+    qf_branching = True
+    loops = {0: Loop(invariant=_cpos_inv, decreases=lambda v: Q.seq_len(v.rows_above), shapes={"rows_above": ListOf(Int), "rows_below": ListOf(Int), "pos": Opt(Int), "r": Int})}
+    requires = staticmethod(_cpos_requires)
+    ensures = staticmethod(_cposw_ens)
+    ensures_callee = staticmethod(_cposw_callee)
+
+    def on_raise(a, exc):
+        yield "only-for-a-row-outside-the-layout", either(a.row < 0, a.row >= nlines(a.layout))
+
+
+# ------------------------------------------------------------------------------------------------ Edit.move_cursor_to_coords
+
+INVALIDATE = (TX + "Text._invalidate",)
+
+
+def nothing_cached(s):
+    c = s._cache_maxcol
+    return c is None or (opt_isnone(c) if isinstance(c, SOpt) else False)
+
+
+@contract(ED + "Edit.set_edit_pos", property="C10", alias="with-the-layout-cache", inline=INVALIDATE, **GEOKW)
+class set_edit_pos_geo:
+    """contracts/C10_edit.py's set_edit_pos on the state model of this file: the cached translation is dropped as well."""
+    params = dict(pos=Int)
+    raises = ()
+    modifies = ("_edit_pos", "highlight", "pref_col_maxcol", "_cache_maxcol")
+
+    def ensures(old, s, a, result):
+        yield "clamped-into-the-text", s._edit_pos == imin(imax(a.pos, 0), tlen(old._edit_text))
+        yield "selection-and-preferred-column-forgotten", both(opt_isnone(s.highlight) if s.highlight is not None else True, pref_is(s.pref_col_maxcol[0], None), s.pref_col_maxcol[1] is None)
+        yield "cached-layout-dropped-canvas-cache-told-once", both(nothing_cached(s), count_ev(s.trace, "_invalidate") == 1)
+        yield "rest-untouched", both(content_same(old, s), flag_same(old, s))
+
+    ensures_callee = staticmethod(_nothing_more)
+
+    def effects(old, s, a, result):
+        s.fields["_edit_pos"] = imin(imax(a.pos, 0), tlen(old._edit_text))
+        s.fields["highlight"] = None
+        s.fields["pref_col_maxcol"] = (None, None)
+        s.fields["_cache_maxcol"] = None
+        s.trace.append(("_invalidate",))
+
+
+def caption_index(s):
+    """The first character of the edit text as an offset into the text shown."""
+    return tlen(s._caption)
+
+
+def in_layout_columns(view, x, y):
+    """Column x of what is displayed on line y, as a column of the layout (strings 'left' / 'right' stay as they are)."""
+    return x if isinstance(x, str) else x - row_shift(view, y)
+
+
+class Moved:
+    """What one call of Edit.move_cursor_to_coords((maxcol,), x, y) established.  `top` is the cell of the first
+    character of the edit text in the layout L of the text shown (CellOf): lines above it hold caption only.
+      refused (y above that line or below the last one): nothing changed, False returned;
+      accepted: `line` is the record of calc_line_pos on line y of L for column x -- taken in the columns of the LAYOUT,
+         i.e. minus the view shift when y is the cursor's (shifted) line -- (LinePos); when that line has a position at
+         all the new cursor offset is that position minus the caption, clamped into the edit text."""
+
+    def __init__(self, view, top, y, line, new_pos):
+        self.view, self.top, self.y, self.line, self.new_pos = view, top, y, line, new_pos
+
+    @property
+    def accepted(self):
+        return both(self.top.y <= self.y, self.y < nlines(self.top.layout))
+
+
+def new_offset(s, line):
+    """the cursor offset for the text position a line answered: minus the caption, clamped into the edit text"""
+    p = val(line.p) if val(line.p) is not None else 0
+    return imin(imax(p - tlen(s._caption), 0), tlen(s._edit_text))
+
+
+def moved(old, maxcol, x, y):
+    """(callee views; forks on accepted / refused) the record of move_cursor_to_coords((maxcol,), x, y)"""
+    st = cur()
+    lay = Lay(old, maxcol)
+    view = view_of(old, maxcol)
+    top = CellOf.some(shown(old), lay, caption_index(old), "top")
+    m = Moved(view, top, y, None, None)
+    if bool(m.accepted):
+        m.line = LinePos(shown(old), row_of(lay, y), in_layout_columns(view, x, y), Opt(Int).fresh(st, "line_pos"), st.fresh_int("pos_seg"), st.fresh_bool("pos_found"), known=True)
+        play().add_fact(lambda y2, j2, m=m: m.line.none_at(j2))
+        play().add_point(y, m.line.k)
+        m.new_pos = ite(opt_isnone(m.line.p), st.fresh_int("edit_pos"), new_offset(old, m.line))
+        st.assume(both(0 <= m.new_pos, m.new_pos <= tlen(old._edit_text)))
+    st.ghost.setdefault("moves", []).append(m)
+    return m
+
+
+def _moved_effects(old, s, m, x, maxcol):
+    if m.line is None:
+        _cache_effects(old, s, maxcol)
+        return
+    s.fields["_edit_pos"] = m.new_pos
+    s.fields["highlight"] = None
+    s.fields["pref_col_maxcol"] = (x, maxcol)
+    s.fields["_cache_maxcol"] = None
+    s.trace.extend([("_invalidate",), ("_invalidate",)])
+
+
+_MC_OV = {TL + "calc_pos": calc_pos_w, ED + "Edit.set_edit_pos": set_edit_pos_geo}
+
+
+def _mc_clauses(old, s, maxcol, x, y, result):
+    """(proof goals) the Moved record of a call that went through get_line_translation, position_coords(maxcol, 0) and --
+    when accepted -- calc_pos on what is displayed."""
+    st = cur()
+    lay = Lay(old, maxcol)
+    views, locs, rps = st.ghost.get("views", []), st.ghost.get("located", []), st.ghost.get("row_pos", [])
+    follows = bool(old._shift_view_to_cursor)
+    ok = len(locs) == 1 and len(views) == (2 if follows else 0) and eq(locs[0].cell.pos, caption_index(old)) is not False
+    yield "translation-asked-once-first-line-of-the-edit-text-looked-up-once", both(ok, eq(locs[0].cell.pos, caption_index(old)) if ok else False)
+    if not ok:
+        return
+    view = views[0] if follows else None     # the one behind `trans`
+    if follows:
+        c = view.cell
+        for label, f in CellOf(shown(old), lay, cursor_index(old), c.x, c.y, c.wj, c.held).clauses():
+            yield "cursor-cell/" + label, f
+    t0 = locs[0].cell
+    top = CellOf(shown(old), lay, caption_index(old), t0.x, t0.y, t0.wj, t0.held)
+    for label, f in top.clauses():
+        yield "first-line-of-the-edit-text/" + label, f
+    m = Moved(view, top, y, None, None)
+    if not bool(m.accepted):
+        yield "line-above-the-edit-text-or-below-the-last-line/refused", both(result is False, len(rps) == 0)
+        yield "line-above-the-edit-text-or-below-the-last-line/nothing-changed", both(editor_same(old, s), flag_same(old, s), count_ev(s.trace, "_invalidate") == 0)
+        yield "line-above-the-edit-text-or-below-the-last-line/layout-cached", layout_cached(old, s, maxcol)
+        return
+    yield "line-of-the-edit-text/accepted-position-looked-up-once-on-that-line", both(result is True, len(rps) == 1, (both(rps[0].row == y) if rps else False))
+    if len(rps) != 1:
+        return
+    rl = rps[0].line
+    line = LinePos(shown(old), row_of(lay, y), in_layout_columns(view, x, y), rl.p, from_displayed(view, y, rl.k)[1], rl.found)
+    for label, f in line.clauses():
+        yield "line-of-the-edit-text/position-on-that-line-for-the-column-in-the-layout/" + label, f
+    yield "line-of-the-edit-text/cursor-on-the-position-of-that-line-minus-the-caption-clamped-into-the-edit-text", implies(neg(opt_isnone(rl.p)), s._edit_pos == new_offset(old, line))
+    yield "line-of-the-edit-text/column-remembered-for-this-width", both(pref_is(s.pref_col_maxcol[0], x), eq(s.pref_col_maxcol[1], maxcol))
+    yield "line-of-the-edit-text/selection-forgotten", opt_isnone(s.highlight) if s.highlight is not None else True
+    yield "line-of-the-edit-text/cached-layout-dropped-canvas-cache-told", both(nothing_cached(s), count_ev(s.trace, "_invalidate") >= 1)
+    yield "line-of-the-edit-text/text-untouched", both(content_same(old, s), flag_same(old, s))
+
+
+@contract(ED + "Edit.move_cursor_to_coords", property=("C10", "C09"), contract_overrides=_MC_OV,
+          inline=INVALIDATE + (ED + "Edit.caption", ED + "Edit.edit_pos", ED + "Edit.edit_text", ED + "Edit.get_edit_text"), **GEOKW)
+class move_cursor_to_coords:
+    params = dict(size=Tup(Int), x=PREFCOL, y=Int)
+    result = Bool
+    raises = ()
+    modifies = CACHE + ("_edit_pos", "highlight", "pref_col_maxcol")
+
+    def requires(s, a):
+        return a.size[0] >= 1
+
+    def ensures(old, s, a, result):
+        yield from _mc_clauses(old, s, a.size[0], a.x, a.y, result)
+
+    def pure_spec(old, a):
+        return moved(old, a.size[0], a.x, a.y).line is not None
+
+    ensures_callee = staticmethod(_nothing_more)
+
+    def effects(old, s, a, result):
+        _moved_effects(old, s, cur().ghost["moves"][-1], a.x, a.size[0])
